@@ -299,5 +299,5 @@ def run(repo, chk):
     chk.rule('C17.D7', 'the bytes and lengths the write routines read are the ones the program denotes: escaping of constants, '
                        'string table length prefix, string-to-byte-array conversion (shared with C13.B0/B2)')
     from . import c13
-    c13.run(repo, Remap(chk, {'C13.B0': 'C17.D7', 'C13.B2': 'C17.D7'}))
+    c13.run(repo, Remap(chk, {'C13.B0': 'C17.D7', 'C13.B2': 'C17.D7', 'C13.B3': lambda c: 'C17.D7' if c.startswith('make_global') else None}))
     chk.not_decided = ['the digits printed for every representable integer (VM arithmetic)']
